@@ -67,6 +67,23 @@ class StubLinkify:
         return self._mk(m)
 
 
+def hook_normalize(url):
+    """application-style link rewriting: site-relative destinations get a base URL, one host is mirrored"""
+    from markdown_it.common.normalize_url import normalizeLink
+    u = normalizeLink(url)
+    if u.startswith("/") and not u.startswith("//"):
+        return "https://base.example" + u
+    return u.replace("x.y", "mirror.example")
+
+
+def hook_validate(url):
+    """application-style policy: stricter for some destinations, laxer for others than the stock validator"""
+    from markdown_it.common.normalize_url import validateLink
+    if "forbidden" in url or url.startswith("%20") or url == "#":
+        return False
+    return validateLink(url) or url.lower().startswith(("javascript:", "data:"))
+
+
 def conf_id(conf) -> str:
     return hashlib.sha1(json.dumps(conf, sort_keys=True).encode()).hexdigest()[:10]
 
@@ -82,6 +99,9 @@ def build(conf):
         md.disable(list(conf["disable"]))
     if conf.get("stub_linkify"):
         md.linkify = StubLinkify()
+    if conf.get("link_hooks"):
+        md.normalizeLink = hook_normalize
+        md.validateLink = hook_validate
     return md
 
 
